@@ -318,3 +318,35 @@ def o21_sampling(tier, rng, rep):
         if not (np.all(np.abs(back - Rg) <= 1e-6) or np.all(np.abs(back + Rg) <= 1e-6)):
             rep.fail("roundtrip_up_to_sign", f"{back.tolist()} vs {Rg.tolist()}", inp)
         rep.case(key=(t,), nontrivial=rg or rh, sample=inp if done == 1 else None)
+
+
+@bounded(P, "integer_typed_matrices", functions=["geometry_tools/lie/core.py:gln_adjoint", "geometry_tools/lie/core.py:sln_adjoint", "geometry_tools/lie/core.py:sl2_irrep",
+                                                  "geometry_tools/lie/core.py:sl2_to_so21", "geometry_tools/lie/core.py:block_include", "geometry_tools/lie/core.py:linear_matrix_action"],
+         note="matrices stored with an integer dtype (determinant not +-1 in general): every Lie map returns what it returns on the float64 copy, or refuses the type loudly")
+def integer_typed_matrices(tier, rng, rep):
+    N = 200 if tier == 'thorough' else 40
+    rep.rule = "random int64 / int32 matrices with entries in -3..3 and |det| >= 1 (2x2 and 3x3); maps: sl2_irrep(3,4), sl2_to_so21, gln_adjoint, sln_adjoint, block_include, through lie.core and the lie.hom wrappers"
+    rep.bound = f"{N} matrices x 7 maps"
+    from geometry_tools.lie import hom as lhom
+    maps2 = {"sl2_irrep3": lambda A: lie.sl2_irrep(A, 3), "sl2_irrep4": lambda A: lie.sl2_irrep(A, 4), "sl2_to_so21": lambda A: lie.sl2_to_so21(A)}
+    mapsn = {"gln_adjoint": lambda A: lie.gln_adjoint(A), "sln_adjoint": lambda A: lie.sln_adjoint(A), "block_include": lambda A: lie.block_include(A, A.shape[-1] + 2),
+             "hom_gln_adjoint": lambda A: lhom.gln_adjoint()(A)}
+    for t in range(N):
+        n = 2 + t % 2
+        while True:
+            A = rng.integers(-3, 4, size=(n, n))
+            if abs(np.linalg.det(A)) >= 0.5:
+                break
+        A = A.astype(np.int64 if t % 3 else np.int32)
+        for nm, f in list(mapsn.items()) + (list(maps2.items()) if n == 2 else []):
+            inp = {"map": nm, "matrix": A.tolist(), "dtype": str(A.dtype)}
+            try:
+                with np.errstate(all='ignore'):
+                    got = np.asarray(f(A.copy()), dtype=complex)
+            except (TypeError, ValueError):
+                rep.case(key=(t, nm, "refused"), nontrivial=False)
+                continue
+            want = np.asarray(f(A.astype(float)), dtype=complex)
+            if got.shape != want.shape or not np.all(np.abs(got - want) <= 1e-9 * (1 + np.max(np.abs(want)))):
+                rep.fail("same_image_as_for_the_float_copy", f"{nm}: {np.real(got).tolist()} vs {np.real(want).tolist()}", inp)
+            rep.case(key=(t, nm), nontrivial=abs(round(np.linalg.det(A))) != 1)
